@@ -117,7 +117,7 @@ func c10Sign(c *core.Ctx) {
 			"a failing return after the append does not pass through `<receiver>.Signatures = nil`: a failed signing leaves the envelope signed")
 	}
 	if nSucc == 0 {
-		c.Ob("C10-R1", fd.Name()+"#validated-success", fd.Decl.Pos(), false, "no success return after the append")
+		c.Ob("C10-R1", fd.Name()+"#validated-success", fd.Decl.Pos(), false, "NOT FOUND: no success return after the append")
 	}
 	if nFail == 0 {
 		c.Ob("C10-R1", fd.Name()+"#rollback", fd.Decl.Pos(), false, "no failing return after the append: validation result cannot be reported")
